@@ -1,5 +1,6 @@
-import Vanguard.Props.C02
+import Vanguard.Lemmas.ReframeStream
 import Vanguard.Lemmas.RespReframe
+import Vanguard.Lemmas.CleanStream
 set_option linter.unusedSimpArgs false
 /-!
   What a streaming client receives for a well-formed backend stream is **well framed** in the client's
@@ -16,6 +17,17 @@ inductive WellFramed : Bytes → Prop
       (flag = 0 ∨ flag = 1) → fromBe32 a b c d = payload.length → WellFramed rest →
       WellFramed (flag :: a :: b :: c :: d :: (payload ++ rest))
 
+theorem fromBe32_of_be32 (n : Nat) (h : n < 4294967296) :
+    ∀ a b c d, be32 n = [a, b, c, d] → fromBe32 a b c d = n := by
+  intro a b c d hb
+  unfold be32 at hb
+  simp only [List.cons.injEq, and_true] at hb
+  obtain ⟨h1, h2, h3, h4⟩ := hb
+  subst h1 h2 h3 h4
+  unfold fromBe32
+  simp only [UInt8.toNat_ofNat']
+  omega
+
 /-- A data envelope in any dialect: flag 0/1 and the big-endian length. -/
 theorem encode_data_envelope (cc : Enveloper) (env : Envelope) (hnt : env.trailer = false) (hlt : env.length < 4294967296) :
     ∃ flag a b c d, cc.encode env = [flag, a, b, c, d] ∧ (flag = 0 ∨ flag = 1) ∧ fromBe32 a b c d = env.length := by
@@ -24,7 +36,7 @@ theorem encode_data_envelope (cc : Enveloper) (env : Envelope) (hnt : env.traile
   · unfold Enveloper.encode Enveloper.encodeFlags be32
     cases cc <;> simp [hnt]
   · cases env.compressed <;> simp
-  · exact C02.fromBe32_be32 env.length hlt _ _ _ _ rfl
+  · exact fromBe32_of_be32 env.length hlt _ _ _ _ rfl
 
 theorem WellFramed.frame (cc : Enveloper) (env : Envelope) (payload rest : Bytes) (hnt : env.trailer = false)
     (hlen : env.length = payload.length) (hlt : env.length < 4294967296) (hr : WellFramed rest) :
@@ -78,5 +90,49 @@ theorem respConvertedAll_wellFramed (w : World) (st : St) (se cc : Enveloper) (h
               subst hc
               exact WellFramed.frame cc _ o bs rfl rfl (by simp only; omega) (ih bs hr)
           · cases hc
+
+/-- **Request direction, re-encoding path**: what the backend is to read for a sequence of convertible client
+    frames (`convertedAll`: its own envelope and the converted message, per frame) is well framed. -/
+theorem convertedAll_wellFramed (w : World) (pl : HandlePlan) (st : St) (ce se : Enveloper)
+    (hse : st.op.serverEnveloper = some se) (hmax : st.op.conf.maxMsg < 4294967296) :
+    ∀ (fs : List Frame) (out : Bytes), convertedAll w pl st ce fs = some out → WellFramed out := by
+  intro fs
+  induction fs with
+  | nil => intro out h; simp only [convertedAll, Option.some.injEq] at h; subst h; exact WellFramed.nil
+  | cons x xs ih =>
+    intro out h
+    simp only [convertedAll] at h
+    cases hc : x.converted w pl st ce with
+    | none => simp [hc] at h
+    | some b =>
+      cases hr : convertedAll w pl st ce xs with
+      | none => simp [hc, hr] at h
+      | some bs =>
+        simp only [hc, hr, Option.some.injEq] at h
+        subst h
+        unfold Frame.converted trPrepare at hc
+        cases hp : prepareRequestMessage w st.op pl (x.msg ce).1 (x.msg ce).2 with
+        | error e => simp [hp, Except.bind] at hc
+        | ok o =>
+          simp only [hp, Except.bind, requestEnvelope, hse] at hc
+          by_cases hle : o.length > st.op.conf.maxMsg
+          · simp [hle, Except.map] at hc
+          · simp only [hle, if_false, Except.map, Option.some.injEq] at hc
+            subst hc
+            have := WellFramed.frame se { compressed := (x.msg ce).2 && st.op.sReqComp.isSome, length := o.length } o bs rfl rfl
+              (by simp only; omega) (ih bs hr)
+            simpa [List.append_assoc] using this
+
+/-- **Request direction, re-framing path**: the re-framed request stream is well framed. -/
+theorem reframedAll_wellFramed (ce se : Enveloper) (maxMsg : Nat) (hmax : maxMsg < 4294967296) :
+    ∀ fs : List Frame, (∀ x ∈ fs, x.ok ce maxMsg) → WellFramed (reframedAll ce se fs) := by
+  intro fs
+  induction fs with
+  | nil => intro _; exact WellFramed.nil
+  | cons x xs ih =>
+    intro hok
+    obtain ⟨env, hdec, hnt, hlen, hle⟩ := hok x List.mem_cons_self
+    simp only [reframedAll, hdec]
+    exact WellFramed.frame se env x.payload _ hnt hlen (by omega) (ih fun y hy => hok y (List.mem_cons_of_mem _ hy))
 
 end Vanguard
